@@ -65,8 +65,8 @@ CHECKS = {
    "All 2040 default placements (40 versions x 3 frame shapes x margins 0..16) and ~50k (100k thorough) override combinations: square, centred, module-aligned, monotone, < 40 %, clear of finders, image centred and no larger; overrides: requested size, gap (less at most one module), position honoured.",
    "Real-valued overrides are a finite grid (the property says sampled)."),
  "C14": ("model_checking", "5 C14", "explicit-state search over call histories replayed on real builders (pristine child processes as oracle) + stateless exploration of all thread interleavings at guarded scheduling points under a controlled scheduler with iterative preemption bounding",
-   "(a) all builder call sequences of depth 4 (thorough 5) for 3 inputs, every build compared with a fresh builder in a pristine child process and with the reference encoder; (b) all SvgBuilder/terminal sequences of depth 4 and ImageBuilder sequences of depth 3 (4): every render equals a fresh renderer's, QRCode untouched, renders recomputed in reverse order in a fresh process; (c) 6 thread programs (2-3 real threads, incl. a shared &QRBuilder) under a controlled scheduler: all interleavings with <= 1-2 preemptions on the fine point set (~80 points per build) and <= 2-3 on the coarse set; every thread's result = sequential pristine result; racy canary as vacuity guard; replay-twice determinism gate.",
-   "Preemption only at hook H3 points; no memory-model exploration (no atomics in the crate; source scan reported in the evidence). Free-running 16-thread pass is supplementary sampling."),
+   "(a) all builder call sequences of depth 4 (thorough 5) for 3 inputs, every build compared with a fresh builder in a pristine child process and with the reference encoder; (b) all SvgBuilder/terminal sequences of depth 4 and ImageBuilder sequences of depth 3 (4): every render equals a fresh renderer's, QRCode untouched, renders recomputed in reverse order in a fresh process; (c) 6 thread programs (2-3 real threads, incl. a shared &QRBuilder) under a controlled scheduler: all interleavings with <= 1-2 preemptions on the fine point set (~80 points per build) and <= 2-3 on the coarse set; every thread's result = sequential pristine result; racy canary as vacuity guard; replay-twice determinism gate; (d) the same scheduler at function-entry granularity on a second build of the subject (nightly, opt-level 0, -Zinstrument-mcount, harness-defined mcount): 5 (thorough 8) thread programs incl. terminal and SVG renders of two sizes, all interleavings with <= 1 preemption at the first k (1; thorough 3) entries of every (function, call site) pair per operation, expectations from fresh single-threaded processes.",
+   "(c) preempts at hook H3 points, (d) at function entries inside the crate (bound 1, first k occurrences per call site); a window without any call or needing two preemptions is left to the supplementary free-running 16-thread pass (sampling). No memory-model exploration (no atomics in the crate; source scan reported in the evidence). If the nightly instrumented build is unavailable (d) is skipped and the evidence says so."),
  "C15": ("exploration", "5 C15", "bounded exhaustive enumeration of configurations, computed region map as oracle",
    "module_type() at each of the 477 320 coordinates of the 40 sizes, under all levels/masks/modes and several payloads, equals R's ISO region map; data-label count = 8 x codewords + remainder bits.",
    "Either label accepted where an alignment pattern overlaps a timing line."),
@@ -109,6 +109,8 @@ def main():
         "engines": [
             {"name": "fqv", "path": "/verif/harness", "serves_properties": [c["property_id"] for c in checks],
              "kind_free_text": "hand-written Rust explorers over the real crate: E1 complete cell/length sweeps, E2 breadth-first operation-sequence search with state hashing, E3 controlled scheduler over guarded scheduling points (iterative preemption bounding), E4 LD_PRELOAD fault enumerator; oracle = independent ISO 18004 reference model"},
+            {"name": "fqv-fine", "path": "/verif/harness-fine", "serves_properties": ["C14"],
+             "kind_free_text": "E3-fine: the controlled scheduler of fqv driven by function-entry events of a second build of fast_qr (nightly toolchain, opt-level 0, -Zinstrument-mcount; the harness defines mcount): stateless DFS over choice prefixes with preemption bound 1 at the first k entries of every (function, call site) pair, shards in child processes, replayable schedules; invoked by fqv for C14 (d)"},
         ],
         "checks": checks,
         "not_applicable": na,
